@@ -504,11 +504,11 @@ Proof.
   destruct (mctl m) eqn:Ectl; [ | | inversion H; subst; fin6 ].
   all: cbv beta iota zeta in H.
   all: destruct (mback m && negb (cback cfg)); [inversion H; subst; fin6|].
-  all: destruct (mpm0 m && (negb (play_side (wst w0)) || negb (proto_eqb p PTCP))); [inversion H; subst; fin6|].
   2:{ (* the control attribute does not resolve: refused before the request is written *)
       assert (Xf : xf10 cfg = true) by (destruct Sm as [Sm|Sm]; [congruence|exact Sm]).
       rewrite Xf in H. cbn [andb] in H. inversion H; subst; fin6. }
   cbn [andb] in H.
+  all: destruct (mpm0 m && (negb (play_side (wst w0)) || negb (proto_eqb p PTCP))); [inversion H; subst; fin6|].
   all: destruct (do_ cfg mSetup false false w0) as [w1 r1] eqn:E1.
   all: destruct (do_spec _ _ _ _ _ _ E1 C0 W0) as (P1 & K1 & C1 & WK1 & WR1).
   all: assert (I1 : inv (wst w1)) by (eapply inv_frame; eauto).
@@ -1558,253 +1558,3 @@ Lemma call_keeps_ok cfg nm rev a c :
                (cl_dead c = None -> cl_dead c' <> None -> ledger (wst (cl_w c')) = 0).
 Proof. intros R Hc. apply call_ok; [exact Hc|apply arg_ok_repaired; exact R]. Qed.
 
-(* ---------- 7. request bounds for Setup and the idle switch (transport fixed after the re-DESCRIBE) ---------- *)
-
-(* two fields no request/response round touches, whatever the URL and the connection state *)
-Definition frame2 (s s' : cst) : Prop := st_axis s' = st_axis s /\ st_strans s' = st_strans s.
-Lemma frame2_refl s : frame2 s s. Proof. split; reflexivity. Qed.
-Lemma frame2_trans a b c : frame2 a b -> frame2 b c -> frame2 a c.
-Proof. unfold frame2; intuition congruence. Qed.
-
-Lemma do1_f2 cfg m u skip w w' r : do1 cfg m u skip w = (w', r) -> frame2 (wst w) (wst w').
-Proof.
-  unfold do1. intro H.
-  destruct (st_sender (wst w) && u); [inversion H; subst; apply frame2_refl|].
-  destruct (negb (st_conn (wst w))); [inversion H; subst; apply frame2_refl|].
-  assert (P : forall w1 evs, (if m =? mTeardown then (w, []) else pop m w) = (w1, evs) -> wst w1 = wst w).
-  { intros w1 evs E. destruct (m =? mTeardown); [inversion E; reflexivity|].
-    pose proof (pop_st m w) as X. rewrite E in X. exact X. }
-  destruct (if m =? mTeardown then (w, []) else pop m w) as [w1 evs] eqn:Ep.
-  specialize (P _ _ eq_refl).
-  assert (F0 : frame2 (wst w) (wst w1)) by (rewrite P; apply frame2_refl).
-  assert (FU : forall f, (forall s, frame2 s (f s)) -> frame2 (wst w) (wst (upd f w1)))
-    by (intros f Hf; rewrite upd_st, P; apply Hf).
-  destruct skip; [inversion H; subst; exact F0|].
-  destruct (st_ctx (wst w)); [inversion H; subst; apply FU; intros [ ]; split; reflexivity|].
-  destruct (wait (st_frames (wst w)) evs) as [rr|e lost];
-    [|inversion H; subst; apply FU; intros [ ]; split; reflexivity].
-  destruct (rsess rr); try (inversion H; subst; exact F0);
-    (destruct (rstatus rr =? csm_status_unauthorized); [|inversion H; subst; exact F0];
-     destruct u; [inversion H; subst; exact F0|];
-     destruct (ccreds cfg && negb (st_sender (wst w))); [|inversion H; subst; exact F0];
-     destruct (rauth rr); inversion H; subst; try exact F0; apply FU; intros [ ]; split; reflexivity).
-Qed.
-
-Lemma conn_open_f2 w : frame2 (wst w) (wst (conn_open w)).
-Proof.
-  unfold conn_open. destruct (st_conn (wst w)); [apply frame2_refl|].
-  rewrite upd_st. destruct (wst w); split; reflexivity.
-Qed.
-
-Lemma doA_f2 cfg m u w w' r : doA cfg m u w = (w', r) -> frame2 (wst w) (wst w').
-Proof.
-  unfold doA. intro H.
-  destruct (do1 cfg m u false w) as [w1 r1] eqn:E1. pose proof (do1_f2 _ _ _ _ _ _ _ E1) as F1.
-  destruct r1; try (inversion H; subst; exact F1).
-  destruct (do1 cfg m u false w1) as [w2 r2] eqn:E2. pose proof (do1_f2 _ _ _ _ _ _ _ E2) as F2.
-  destruct r2; inversion H; subst; eapply frame2_trans; eauto.
-Qed.
-
-Lemma do_options_f2 cfg u w w' r : do_options cfg u w = (w', r) -> frame2 (wst w) (wst w').
-Proof.
-  unfold do_options. intro H.
-  destruct (check_state pre_states (wst w)); cbn [negb] in H; [|inversion H; subst; apply frame2_refl].
-  destruct (doA cfg mOptions u (conn_open w)) as [w1 r1] eqn:E1.
-  pose proof (frame2_trans _ _ _ (conn_open_f2 w) (doA_f2 _ _ _ _ _ _ E1)) as F1.
-  destruct r1; try (inversion H; subst; exact F1).
-  destruct (rstatus r0 =? csm_status_ok);
-    [inversion H; subst; rewrite upd_st; destruct F1 as (A & B); destruct (wst w1); split; cbn in *; congruence|].
-  destruct (rstatus r0 =? csm_status_not_found); inversion H; subst; exact F1.
-Qed.
-
-Lemma pre_options_f2 cfg m u w w' r : pre_options cfg m u w = (w', r) -> frame2 (wst w) (wst w').
-Proof.
-  unfold pre_options. intro H.
-  destruct (negb (st_optsent (wst w)) && negb (m =? mOptions)).
-  - destruct (do_options cfg u w) as [w1 r1] eqn:E1. pose proof (do_options_f2 _ _ _ _ _ E1) as F1.
-    destruct r1; inversion H; subst; exact F1.
-  - inversion H; subst. apply frame2_refl.
-Qed.
-
-Lemma do_f2 cfg m u skip w w' r : do_ cfg m u skip w = (w', r) -> frame2 (wst w) (wst w').
-Proof.
-  unfold do_. intro H.
-  destruct (pre_options cfg m u w) as [w0 r0] eqn:E0. pose proof (pre_options_f2 _ _ _ _ _ _ E0) as F0.
-  destruct r0; try (inversion H; subst; exact F0).
-  destruct (do1 cfg m u skip w0) as [w1 r1] eqn:E1. pose proof (do1_f2 _ _ _ _ _ _ _ E1) as F1.
-  pose proof (frame2_trans _ _ _ F0 F1) as F01.
-  destruct r1; try (cbn in H; inversion H; subst; exact F01).
-  destruct (pre_options cfg m u w1) as [w2 r2] eqn:E2. pose proof (pre_options_f2 _ _ _ _ _ _ E2) as F2.
-  pose proof (frame2_trans _ _ _ F01 F2) as F02.
-  destruct r2; try (inversion H; subst; exact F02).
-  destruct (do1 cfg m u skip w2) as [w3 r3] eqn:E3. pose proof (do1_f2 _ _ _ _ _ _ _ E3) as F3.
-  assert (w' = w3) by (pose proof (d1_result_w (w3, r3)) as Y; rewrite H in Y; exact Y). subst w'.
-  eapply frame2_trans; eauto.
-Qed.
-
-Lemma do_close_axis cfg w w' r : do_close cfg w = (w', r) -> st_axis (wst w') = st_axis (wst w).
-Proof.
-  unfold do_close. intro H.
-  assert (X : forall s1, (if playing (wst w) then option_map stop_transport (destroy_writer (wst w)) else Some (wst w)) = Some s1 ->
-              st_axis s1 = st_axis (wst w)).
-  { intros s1 E. destruct (playing (wst w)); [|inversion E; reflexivity].
-    unfold destroy_writer in E. destruct (st_writer (wst w)); cbn in E; try discriminate;
-      inversion E; unfold stop_transport; destruct (wst w); cbn; destruct st_reader; reflexivity. }
-  destruct (if playing (wst w) then option_map stop_transport (destroy_writer (wst w)) else Some (wst w)) as [s1|];
-    [|inversion H; subst; reflexivity].
-  specialize (X s1 eq_refl).
-  destruct (st_conn s1 && st_baseurl s1).
-  - destruct (do_ cfg mTeardown false true (upd (fun _ : cst => s1) w)) as [w2 r2] eqn:E2.
-    pose proof (do_f2 _ _ _ _ _ _ _ E2) as (A & _). rewrite upd_st in A.
-    destruct r2; inversion H; subst; rewrite ?upd_st; try (destruct (wst w2); cbn in *; congruence); congruence.
-  - inversion H; subst. rewrite !upd_st. destruct s1; cbn in *; congruence.
-Qed.
-
-Lemma reset_axis cfg w w' r :
-  reset cfg w = (w', r) -> r <> Panic -> st_axis (wst w') = st_axis (wst w) /\ st_strans (wst w') = None.
-Proof.
-  unfold reset. intros H NP. destruct (do_close cfg w) as [w1 r1] eqn:E1.
-  pose proof (do_close_axis _ _ _ _ E1) as A.
-  destruct r1; try (inversion H; subst; contradiction);
-    inversion H; subst; rewrite upd_st; destruct (wst w1); destruct (xn4 cfg); cbn in *; auto.
-Qed.
-
-Lemma do_describe_axis cfg : forall fuel nred u w w' r,
-  do_describe fuel cfg nred u w = (w', r) -> st_axis (wst w') = st_axis (wst w).
-Proof.
-  induction fuel as [|f IH]; intros nred u w w' r H; [cbn in H; inversion H; reflexivity|].
-  cbn [do_describe] in H.
-  destruct (negb (check_state pre_states (wst w))); [inversion H; reflexivity|].
-  destruct (do_ cfg mDescribe u false (conn_open w)) as [w1 r1] eqn:E1.
-  pose proof (frame2_trans _ _ _ (conn_open_f2 w) (do_f2 _ _ _ _ _ _ _ E1)) as (A1 & _).
-  destruct r1 as [[rr|]|e|]; try (inversion H; subst; exact A1).
-  destruct (rstatus rr =? csm_status_ok).
-  - destruct (rdesc rr) as [d|]; [|inversion H; subst; exact A1].
-    repeat (match type of H with (if ?b then _ else _) = _ => destruct b end;
-            try (inversion H; subst; rewrite ?upd_st; try (destruct (wst w1); cbn in *); congruence)).
-  - destruct ((csm_status_moved_permanently <=? rstatus rr) && (rstatus rr <=? csm_status_use_proxy) && negb (loc_absent (rloc rr)));
-      [|inversion H; subst; exact A1].
-    destruct nred as [[|k]|]; [inversion H; subst; exact A1| |];
-      (destruct (reset cfg w1) as [w2 r2] eqn:E2;
-       destruct r2 as [x|x|]; [| |inversion H; subst; pose proof (do_close_axis cfg w1) as Q; unfold reset in E2;
-                                   destruct (do_close cfg w1) as [wq rq]; specialize (Q _ _ eq_refl);
-                                   destruct rq; inversion E2; subst; congruence];
-       (destruct (reset_axis _ _ _ _ E2 ltac:(discriminate)) as (A2 & _);
-        destruct (rloc rr); try (inversion H; subst; congruence);
-        (destruct u; [inversion H; subst; congruence|]);
-        pose proof (IH _ _ _ _ _ H) as R; congruence)).
-Qed.
-
-Lemma validate_switch2 cfg s p secure t :
-  validate cfg s p secure t = VSwitch -> is_none (st_strans s) = true /\ is_none (cproto cfg) = true.
-Proof.
-  unfold validate. intro H. destruct (tbad t); [discriminate|].
-  destruct (udpish p && ttcp t).
-  - destruct (is_none (st_strans s)); cbn in H; [|discriminate].
-    destruct (is_none (cproto cfg)); cbn in H; [auto|discriminate].
-  - exfalso. destruct p; destruct (tsp t) as [[? ?]|]; destruct (til t) as [[? ?]|];
-      repeat break_if; discriminate.
-Qed.
-
-(* recursion measure of doSetup: the key-management retry and the switch to TCP happen at most once each *)
-Definition mu (cfg : config) (s : cst) : N :=
-  (if st_axis s then 0 else 1) + (if is_none (st_strans s) && is_none (cproto cfg) then 1 else 0).
-
-Lemma mu_frame2 cfg s s' : frame2 s s' -> mu cfg s' = mu cfg s.
-Proof. intros (A & B). unfold mu. rewrite A, B. reflexivity. Qed.
-
-Definition level_cost (L : nat) : N := 10 * (N.of_nat L + 2).
-
-Lemma do_setup_cnt cfg L : xf11 cfg = Some L -> xn2 cfg = true ->
-  forall fuel m w w' r, do_setup fuel cfg m w = (w', r) ->
-  within ((mu cfg (wst w) + 1) * level_cost L) w w'.
-Proof.
-  intros HL HN2. unfold level_cost.
-  induction fuel as [|f IH]; intros m w w' r H.
-  { cbn in H. inversion H; subst. apply within_weaken with 0; [lia|apply within_refl]. }
-  cbn [do_setup] in H.
-  assert (Z : forall wx, within 6 w wx -> within ((mu cfg (wst w) + 1) * (10 * (N.of_nat L + 2))) w wx)
-    by (intros; eapply within_weaken; [|eassumption]; unfold mu; repeat break_if; lia).
-  assert (Z0 : within 6 w w) by (apply within_weaken with 0; [lia|apply within_refl]).
-  destruct (negb (check_state pre_states (wst w))); [inversion H; subst; apply Z; exact Z0|].
-  pose proof (conn_open_cnt w) as C0. pose proof (conn_open_f2 w) as F0.
-  set (w0 := conn_open w) in *.
-  assert (Z00 : within 6 w w0) by (eapply within_weaken; [|exact C0]; lia).
-  destruct (match st_strans (wst w0) with
-            | Some ps => ps
-            | None => (match cproto cfg with
-                       | Some p => p
-                       | None => if mpm0 m && play_side (wst w0) then PTCP else PUDP
-                       end, false)
-            end) as [p secure].
-  destruct (match p with PTCP => free_channel (st_medias (wst w0)) | _ => Some 0 end);
-    [|inversion H; subst; apply Z; exact Z00].
-  destruct (mctl m); [ | | inversion H; subst; apply Z; exact Z00 ].
-  all: cbv beta iota zeta in H.
-  all: destruct (mback m && negb (cback cfg)); [inversion H; subst; apply Z; exact Z00|].
-  all: destruct (mpm0 m && (negb (play_side (wst w0)) || negb (proto_eqb p PTCP))); [inversion H; subst; apply Z; exact Z00|].
-  all: match type of H with
-       | (if ?b then _ else _) = _ => destruct b; [inversion H; subst; apply Z; exact Z00|]
-       end.
-  all: match type of H with
-       | (match do_ ?c ?mm ?uu ?sk ?ww with _ => _ end) = _ =>
-           destruct (do_ c mm uu sk ww) as [w1 r1] eqn:E1;
-           pose proof (do_cnt _ _ _ _ _ _ _ E1) as C1; change (mSetup =? mTeardown) with false in C1;
-           pose proof (do_f2 _ _ _ _ _ _ _ E1) as F1
-       end.
-  all: pose proof (within_trans 0 6 _ _ _ C0 C1) as C01; cbn in C01.
-  all: pose proof (mu_frame2 cfg _ _ (frame2_trans _ _ _ F0 F1)) as M1.
-  all: destruct r1 as [[rr|]|e|]; try (inversion H; subst; apply Z; exact C01).
-  all: destruct (negb (rstatus rr =? csm_status_ok)).
-  all: try (destruct ((rstatus rr =? csm_status_unsupported_transport) && is_none (st_strans (wst w1)) && is_none (cproto cfg)) eqn:Ea;
-            [ (* 461: the transport becomes TCP, the measure drops *)
-              pose proof (IH _ _ _ _ H) as R; rewrite upd_st in R;
-              pose proof (within_trans _ _ _ _ _ C01 (within_of_upd _ _ _ _ R)) as T;
-              eapply within_weaken; [|exact T];
-              apply Bool.andb_true_iff in Ea; destruct Ea as (Ea & Ec); apply Bool.andb_true_iff in Ea; destruct Ea as (_ & Es);
-              rewrite <- M1; unfold mu; rewrite Es, Ec;
-              destruct (wst w1); cbn; destruct st_axis; cbn; lia
-            | destruct ((rstatus rr =? csm_status_key_mgmt_failure) && rkeymsg rr && negb (st_axis (wst w1))) eqn:Eb;
-              [ pose proof (IH _ _ _ _ H) as R; rewrite upd_st in R;
-                pose proof (within_trans _ _ _ _ _ C01 (within_of_upd _ _ _ _ R)) as T;
-                eapply within_weaken; [|exact T];
-                apply Bool.andb_true_iff in Eb; destruct Eb as (_ & Ex); apply Bool.negb_true_iff in Ex;
-                rewrite <- M1; unfold mu; rewrite Ex;
-                destruct (wst w1); cbn in *; subst; cbn; destruct (is_none st_strans && is_none (cproto cfg)); lia
-              | inversion H; subst; apply Z; exact C01 ] ]; fail).
-  all: destruct (rth rr) as [t|]; [|inversion H; subst; apply Z; exact C01].
-  all: destruct (validate cfg (wst w1) p secure t) eqn:Ev;
-         [ inversion H; subst; apply within_upd; apply Z; exact C01 | inversion H; subst; apply Z; exact C01 | ].
-  (* switch to TCP *)
-  all: destruct (validate_switch2 _ _ _ _ _ Ev) as (Es & Ec).
-  all: assert (Mw : mu cfg (wst w) = (if st_axis (wst w1) then 0 else 1) + 1)
-         by (rewrite <- M1; unfold mu; rewrite Es, Ec; reflexivity).
-  all: destruct (reset cfg (upd (set_baseurl true) w1)) as [w2 r2] eqn:E2.
-  all: pose proof (within_of_upd _ _ _ _ (reset_cnt _ _ _ _ E2)) as C2.
-  all: destruct r2 as [u2|e2|]; [| |inversion H; subst; pose proof (within_trans _ _ _ _ _ C01 C2) as T;
-                                     eapply within_weaken; [|exact T]; rewrite Mw; break_if; lia].
-  all: destruct (reset_axis _ _ _ _ E2 ltac:(discriminate)) as (A2 & _).
-  all: assert (A2' : st_axis (wst w2) = st_axis (wst w1))
-         by (rewrite A2, upd_st; destruct (wst w1); reflexivity).
-  all: rewrite HN2 in H; cbv beta iota zeta in H.
-  all: assert (RECB : forall wx, st_axis (wst wx) = st_axis (wst w1) -> within (4 + 10 * (N.of_nat L + 1)) w1 wx ->
-                do_setup f cfg m (upd (set_strans (Some (PTCP, secure))) wx) = (w', r) ->
-                within ((mu cfg (wst w) + 1) * (10 * (N.of_nat L + 2))) w w')
-    by (intros wx Ax Cx Hx; pose proof (IH _ _ _ _ Hx) as R; rewrite upd_st in R;
-        pose proof (within_trans _ _ _ _ _ (within_trans _ _ _ _ _ C01 Cx) (within_of_upd _ _ _ _ R)) as T;
-        eapply within_weaken; [|exact T]; rewrite Mw;
-        unfold mu; destruct (wst wx); cbn in *; subst; cbn; break_if; lia).
-  all: destruct (xn1 cfg && negb (st_lasturl (wst w2)));
-         [ eapply RECB; [exact A2'| |exact H]; eapply within_weaken; [|exact C2]; lia |].
-  all: destruct (do_describe (S (length (wsc w2))) cfg (xf11 cfg) (negb (st_lasturl (wst w2))) w2) as [w4 r4] eqn:E4.
-  all: rewrite HL in E4.
-  all: pose proof (do_describe_cnt _ _ _ _ _ _ _ E4) as C4.
-  all: pose proof (do_describe_axis _ _ _ _ _ _ _ E4) as A4.
-  all: pose proof (within_trans _ _ _ _ _ C2 C4) as C24.
-  all: destruct r4 as [d4|e4|];
-         [ eapply RECB; [congruence|exact C24|exact H]
-         | inversion H; subst; pose proof (within_trans _ _ _ _ _ C01 C24) as T;
-           eapply within_weaken; [|exact T]; rewrite Mw; break_if; lia
-         | inversion H; subst; pose proof (within_trans _ _ _ _ _ C01 C24) as T;
-           eapply within_weaken; [|exact T]; rewrite Mw; break_if; lia ].
-Qed.
